@@ -62,7 +62,10 @@ NONNUMERIC = ['abc', '1.5', '1e3', '0x10', '12a', '-', '.', 'x1', '1-1',
               # other spellings of the *true* length / of an inner line end:
               # not decimal integers, so never acceptable
               '@hex', '@oct', '@bin', '@hex-inner', '@HEX',
-              '@hex', '@hex-inner']
+              '@hex', '@hex-inner',
+              # the true length with an explicit sign / in a spelling int()
+              # would take: not the grammar's non-negative integer either
+              '@plus', '@plus', '@plus0']
 
 
 def generate(rng, tier, cls):
@@ -377,6 +380,21 @@ def execute(scn, L):
         cls = judge(out, tag, R_full, recs, e, x, L, ctx, cut=k,
                     data_end_section=sec, spans=spans,
                     tail=intact[(spans[sec][1] if sec is not None else max(0, k - 400)):k])
+        if e == 'raise' and exc_summary(x, L)['parse_error'] and \
+           (len(intact) - k <= 4 or k % 37 == 0):
+            # the object-model loader is that reader plus a tree builder:
+            # it cannot make a tree of a copy its reader refuses (the cuts
+            # next to the end of the file, and a regular sample of the
+            # others)
+            out.evals += 1
+
+            try:
+                L.DiffX.from_bytes(intact[:k])
+                out.violate('C07.loader-accepts-refused-copy', tag,
+                            dict(ctx, cut=k, reader=exc_summary(x, L)))
+            except Exception:
+                out.probe('loader_refuses_what_its_reader_refuses')
+
         st, pc = position_class(k, spans, ref, len(intact))
 
         if 0 < k < len(intact) and intact[k - 1:k] == b'\n' and \
@@ -691,6 +709,7 @@ def execute(scn, L):
                 k = (inner + 1 - he) if inner >= 0 else n
                 val = {'@hex': hex(n), '@oct': oct(n), '@bin': bin(n),
                        '@HEX': '0X%X' % n, '@hex-inner': hex(k),
+                       '@plus': '+%d' % n, '@plus0': '+0%d' % n,
                        '@underscore': ('%d_%d' % (n // 10, n % 10))
                        if n >= 10 else '0_%d' % n}.get(val, 'abc')
 
@@ -701,8 +720,8 @@ def execute(scn, L):
         from dsim.world import rewrite_header
         new = rewrite_header(intact[hs:he], b'length', val.encode('ascii'))
 
-        if new is None or R.parse_header_line(
-                new.rstrip(b'\r\n')) is None:
+        if new is None or (R.parse_header_line(
+                new.rstrip(b'\r\n')) is None and not val.startswith('+')):
             out.discarded = 'fault_not_taken'
             return out
 
